@@ -184,3 +184,14 @@ func verifObserveTokens(stream *antlr.CommonTokenStream) {
 		VerifTokens(tok.GetTokenType(), tok.GetText(), tok.GetLine()-1, tok.GetColumn(), tok.GetChannel())
 	}
 }
+
+// VerifMergeTrace, when non-nil, receives one event per decision of TransformModuleFilesToModel: file (name, ok | syntax),
+// type (name, dup | ext | new | notmodule), cond (name, dup | notmodule | new), extfile (name), exttype (type, missing |
+// adopt | merge), extrel (type, relation, dup | add) - in the order the merger takes them.
+var VerifMergeTrace func(event string, args []string)
+
+func verifTraceMerge(event string, args ...string) {
+	if VerifMergeTrace != nil {
+		VerifMergeTrace(event, append([]string{}, args...))
+	}
+}
